@@ -243,7 +243,7 @@ Section Inv.
     exists i, lookup i (reg s) = None /\ a = length (heap s) /\
       next_unique (H (id_data_of ct current c o ps (kd_of (heap s) ks))) 0 (length (reg s)) (reg s) = Some i /\
       s' = {| heap := heap s ++ [mkcell c o ps ks i (heap s)]; reg := (i, length (heap s)) :: reg s;
-              vars := vars s; det := det s; gone := gone s |}.
+              vars := vars s; det := det s; gone := gone s; slots := slots s |}.
   Proof.
     unfold alloc. destruct (next_unique _ 0 _ _) as [i|] eqn:E; [|discriminate].
     intros [= <- <-]. exists i. split; [eapply next_unique_fresh; eauto|]. repeat split; auto.
@@ -769,6 +769,364 @@ Section DupProofs.
   Proof. intros Hs E. pose proof (dup_spec_gen fuel s a Hs) as M. now rewrite E in M. Qed.
 End DupProofs.
 
+(* what a raising operation leaves behind (before the collection that ends the step): the heap has only grown, variables
+   and the ghost `gone` are as they were, every old registration is still there, and whatever else is registered is a
+   node built by the failed call *)
+Definition failrel (s s2 : st) : Prop :=
+  (exists ext, heap s2 = heap s ++ ext) /\ vars s2 = vars s /\ gone s2 = gone s /\
+  (forall e, In e (reg s) -> In e (reg s2)) /\
+  (forall e, In e (reg s2) -> In e (reg s) \/ length (heap s) <= snd e).
+Lemma grow_failrel s s2 : grow s s2 -> failrel s s2.
+Proof.
+  intros G. destruct G as [Hh [[nr [Hr Hn]] [Hv [_ Hg]]]]. repeat split; auto.
+  - intros e Hin. rewrite Hr. apply in_or_app. auto.
+  - intros e Hin. rewrite Hr in Hin. apply in_app_or in Hin as [Hin|Hin]; auto.
+Qed.
+
+(* ================= as_dict / as_obj (the registry effect of ASTNode._deserialize) ================= *)
+Lemma set_nth_length {A} (x : A) : forall l n, length (set_nth n x l) = length l.
+Proof. induction l as [|y l IH]; intros [|n]; simpl; auto. Qed.
+Lemma set_nth_same {A} (x : A) : forall l n, n < length l -> nth_error (set_nth n x l) n = Some x.
+Proof. induction l as [|y l IH]; intros [|n] Hn; simpl in *; try lia; auto. apply IH. lia. Qed.
+Lemma set_nth_other {A} (x : A) : forall l n m, n <> m -> nth_error (set_nth n x l) m = nth_error l m.
+Proof. induction l as [|y l IH]; intros [|n] [|m] Hne; simpl; auto; try congruence. Qed.
+
+(* a value slot is no reference: writing one changes nothing the invariant speaks about *)
+Lemma inv0_set_slot s k v : Inv0 s -> Inv0 (set_slot s k v).
+Proof. intros [Hf Hok Hall Hdet Hb Hh Hro]. constructor; auto. Qed.
+
+Lemma prefix_ext {A} (l : list A) : forall l', length l <= length l' ->
+  (forall a, a < length l -> nth_error l' a = nth_error l a) -> l' = l ++ skipn (length l) l'.
+Proof.
+  induction l as [|x l IH]; intros l' Hl Hn; simpl; [reflexivity|].
+  destruct l' as [|y l']; simpl in *; [lia|]. f_equal.
+  - specialize (Hn 0 ltac:(lia)). simpl in Hn. congruence.
+  - apply IH; [lia|]. intros a Ha. apply (Hn (S a)). lia.
+Qed.
+
+Lemma force_id_true s a cl i :
+  force_id true s a cl i = match lookup i (reg s) with Some _ => s | None => force_id false s a cl i end.
+Proof. unfold force_id. simpl. destruct (lookup i (reg s)); reflexivity. Qed.
+Lemma force_id_cases fx s a cl i : force_id fx s a cl i = s \/ force_id fx s a cl i = force_id false s a cl i.
+Proof. unfold force_id. destruct (fx && _); simpl; auto. Qed.
+Lemma force_len fx s a cl i : length (heap (force_id fx s a cl i)) = length (heap s).
+Proof. destruct (force_id_cases fx s a cl i) as [->| ->]; auto. unfold force_id; simpl. apply set_nth_length. Qed.
+
+Section SerProofs.
+  Variable H : pystr -> pystr.
+  Variable ct : ctable.
+  Variable late : st -> nat -> bool.
+
+  (* an id that is registered is answered by the registered node - the original if it is still alive, or whichever
+     node has meanwhile taken the id over (the premise "no other live node has taken over its id" of C04) *)
+  Theorem deser_registered fx fuel s i c o ps ks b : lookup i (reg s) = Some b ->
+    deser H ct late fx (S fuel) s (SNode i c o ps ks) = DOk s b.
+  Proof. intro E. simpl. now rewrite E. Qed.
+
+  (* forcing the serialized id onto the node just built (the code before the repair: over whatever holds the id) *)
+  Lemma force_inv_raw s a cl i : Inv0 s -> cell_at s a = Some cl -> In (k_id cl, a) (reg s) -> k_id cl <> i ->
+    Inv0 (force_id false s a cl i).
+  Proof.
+    intros Hs Hc Hin Hne. pose proof Hs as [Hf Hok Hall Hdet Hb Hh Hro].
+    assert (Ha : a < length (heap s)) by (eapply cell_at_lt; eauto).
+    set (r1 := remove_id (k_id cl) (reg s)).
+    assert (Hr1 : forall j x, In (j, x) r1 <-> In (j, x) (reg s) /\ j <> k_id cl) by (intros; apply remove_in).
+    assert (Hn1 : NoDup (keys r1)) by now apply remove_nodup.
+    assert (Hcell : forall x, x <> a -> cell_at (force_id false s a cl i) x = cell_at s x).
+    { intros x Hx. unfold cell_at; simpl. apply set_nth_other. congruence. }
+    assert (Hcella : cell_at (force_id false s a cl i) a = Some (with_id cl i)).
+    { unfold cell_at; simpl. now apply set_nth_same. }
+    assert (Hown : forall j, In (j, a) (reg s) -> j = k_id cl).
+    { intros j Hj. destruct (Hok _ _ Hj) as [c' [Hc' <-]]. rewrite Hc in Hc'. now injection Hc' as <-. }
+    assert (Hdet' : forall x, In x (det (force_id false s a cl i)) -> In x (det s) \/ In (i, x) r1).
+    { intros x. unfold force_id; simpl. fold r1. destruct (lookup i r1) as [b|] eqn:El; auto.
+      intros [<-|Hx]; auto. right. now apply lookup_in. }
+    constructor.
+    - simpl. fold r1. constructor; [|now apply remove_nodup]. intro Hk. apply remove_keys in Hk as [_ Hk]. congruence.
+    - intros j x. simpl. fold r1. intros [E|Hx].
+      + injection E as <- <-. exists (with_id cl i). auto.
+      + apply remove_in in Hx as [Hx Hji]. apply Hr1 in Hx as [Hx Hjc].
+        destruct (Nat.eq_dec x a) as [->|Hxa]; [apply Hown in Hx; congruence|].
+        rewrite (Hcell _ Hxa). now apply Hok.
+    - intros x cx Hx Hxd Hxg. simpl. fold r1. destruct (Nat.eq_dec x a) as [->|Hxa].
+      + rewrite Hcella in Hx. injection Hx as <-. left. reflexivity.
+      + rewrite (Hcell _ Hxa) in Hx. right. apply remove_in.
+        assert (Hd0 : ~ In x (det s)).
+        { intro Hd. apply Hxd. unfold force_id; simpl. fold r1. destruct (lookup i r1); simpl; auto. }
+        pose proof (Hall _ _ Hx Hd0 Hxg) as Hreg.
+        assert (Hkc : k_id cx <> k_id cl).
+        { intro E. rewrite E in Hreg. apply Hxa. apply (in_lookup _ _ _ Hf) in Hreg. apply (in_lookup _ _ _ Hf) in Hin. congruence. }
+        split; [apply Hr1; auto|]. intro E. apply Hxd. unfold force_id; simpl. fold r1.
+        assert (Hl : lookup i r1 = Some x) by (apply in_lookup; auto; apply Hr1; rewrite <- E; auto).
+        rewrite Hl. simpl. auto.
+    - intros j x. simpl. fold r1. intros [E|Hx].
+      + injection E as <- <-. destruct (Hdet _ _ Hin) as [Hd Hg]. split; auto. intro Hd'.
+        apply Hdet' in Hd' as [Hd'|Hd']; auto. apply Hr1 in Hd' as [Hd' _]. apply Hown in Hd'. congruence.
+      + apply remove_in in Hx as [Hx Hji]. apply Hr1 in Hx as [Hx Hjc]. destruct (Hdet _ _ Hx) as [Hd Hg]. split; auto.
+        intro Hd'. apply Hdet' in Hd' as [Hd'|Hd']; auto. apply Hr1 in Hd' as [Hd' _].
+        destruct (Hok _ _ Hx) as [c1 [Hc1 E1]]. destruct (Hok _ _ Hd') as [c2 [Hc2 E2]]. rewrite Hc1 in Hc2.
+        injection Hc2 as <-. congruence.
+    - intros x [Hx|Hx]; simpl; rewrite set_nth_length.
+      + apply Hdet' in Hx as [Hx|Hx]; [apply Hb; auto|]. apply Hr1 in Hx as [Hx _].
+        destruct (Hok _ _ Hx) as [c1 [Hc1 _]]. eapply cell_at_lt; eauto.
+      + apply Hb; auto.
+    - intros x cx Hx k Hk. destruct (Nat.eq_dec x a) as [->|Hxa].
+      + rewrite Hcella in Hx. injection Hx as <-. eapply Hh; eauto.
+      + rewrite (Hcell _ Hxa) in Hx. eapply Hh; eauto.
+    - intros r Hr. simpl. rewrite set_nth_length. now apply Hro.
+  Qed.
+  (* either variant of the forced-id branch keeps the invariant (the repaired one does nothing when the id is held) *)
+  Theorem force_inv fx s a cl i : Inv0 s -> cell_at s a = Some cl -> In (k_id cl, a) (reg s) -> k_id cl <> i ->
+    Inv0 (force_id fx s a cl i).
+  Proof.
+    intros Hs Hc Hin Hne. destruct (force_id_cases fx s a cl i) as [->| ->]; auto. now apply force_inv_raw.
+  Qed.
+
+  (* when nothing has taken the serialized id (the premise of the property), nobody is evicted: `det` is as it was *)
+  Theorem force_no_takeover fx s a cl i : k_id cl <> i -> lookup i (reg s) = None ->
+    det (force_id fx s a cl i) = det s /\ get_any (force_id fx s a cl i) i = Some a.
+  Proof.
+    intros Hne E. unfold force_id, get_any. rewrite E, andb_false_r. simpl.
+    rewrite lookup_remove_other, E, pystr_eqb_refl by auto. auto.
+  Qed.
+
+  (* no existing node is modified: only the node just built has its id overwritten *)
+  Theorem force_frame fx s a cl i x : x <> a -> cell_at (force_id fx s a cl i) x = cell_at s x.
+  Proof.
+    intro Hx. destruct (force_id_cases fx s a cl i) as [->| ->]; auto.
+    unfold cell_at; simpl. apply set_nth_other. congruence.
+  Qed.
+
+  Definition len_le (s s' : st) : Prop := length (heap s) <= length (heap s').
+
+  (* as_obj - returning, or rejected half-way by a class's own validation - keeps the invariant of C03 (both variants) *)
+  Theorem deser_inv fx : forall fuel s v, Inv0 s ->
+    match deser H ct late fx fuel s v with
+    | DOk s' a => Inv0 s' /\ len_le s s' /\ a < length (heap s')
+    | DLate s' => Inv0 s' /\ len_le s s'
+    | DFuel => True
+    end.
+  Proof.
+    induction fuel as [|f IH]; intros s v Hs; simpl; [exact I|]. destruct v as [i c o ps ks].
+    destruct (lookup i (reg s)) as [b|] eqn:El.
+    - split; auto. split; [unfold len_le; lia|]. apply lookup_in in El.
+      destruct (I_ok _ Hs _ _ El) as [cb [Hcb _]]. eapply cell_at_lt; eauto.
+    - pose (Q := fun (t : st) (y : nat) => y < length (heap t)).
+      pose (Q' := fun (t : st) (k : pystr * (kshape * list nat)) => Forall (Q t) (snd (snd k))).
+      assert (Rrefl : forall t, len_le t t) by (intro; unfold len_le; lia).
+      assert (Rtrans : forall a b c, len_le a b -> len_le b c -> len_le a c) by (unfold len_le; intros; lia).
+      assert (Qmono : forall t t' y, Q t y -> len_le t t' -> Q t' y) by (unfold Q, len_le; intros; lia).
+      assert (Q'mono : forall t t' y, Q' t y -> len_le t t' -> Q' t' y).
+      { intros t t' y Hq G. unfold Q' in *. eapply Forall_impl; [|exact Hq]. intros z Hz. eapply Qmono; eauto. }
+      assert (Hinner : forall t x, Inv0 t -> match deser H ct late fx f t x with
+                                              | DOk t' y => Inv0 t' /\ len_le t t' /\ Q t' y
+                                              | DLate t' => Inv0 t' /\ len_le t t'
+                                              | DFuel => True
+                                              end) by (intros t x Ht; exact (IH t x Ht)).
+      assert (Houter : forall t k, Inv0 t ->
+         match (match mapM_d (deser H ct late fx f) t (snd (snd k)) with
+                | DOk t' l => DOk t' (fst k, (fst (snd k), l))
+                | DLate t' => DLate t'
+                | DFuel => DFuel
+                end) with
+         | DOk t' y => Inv0 t' /\ len_le t t' /\ Q' t' y
+         | DLate t' => Inv0 t' /\ len_le t t'
+         | DFuel => True
+         end).
+      { intros t k Ht. pose proof (mapM_d_spec _ Inv0 len_le Q Rrefl Rtrans Qmono Hinner (snd (snd k)) t Ht) as M.
+        destruct (mapM_d (deser H ct late fx f) t (snd (snd k))) as [t1 l|t1|]; auto. }
+      pose proof (mapM_d_spec _ Inv0 len_le Q' Rrefl Rtrans Q'mono Houter ks s Hs) as M.
+      destruct (mapM_d _ s ks) as [s1 ks'|s1|]; auto.
+      destruct M as [Hs1 [G1 Hq]].
+      assert (Hbelow : kids_below (length (heap s1)) ks').
+      { intros k Hin. apply in_flat_map in Hin as [e [He Hk]]. rewrite Forall_forall in Hq.
+        specialize (Hq _ He). unfold Q' in Hq. rewrite Forall_forall in Hq. apply Hq. auto. }
+      destruct (construct H ct late s1 c o ps ks') as [s2 a|s2|] eqn:Eco; auto.
+      + apply construct_ok in Eco as [Ea _]. pose proof (alloc_inv H ct _ _ _ _ _ _ _ Hs1 Hbelow Ea) as Hs2.
+        pose proof Ea as Esh. apply alloc_shape in Esh as [i' [_ [Ha [_ Esh]]]].
+        assert (Hl2 : length (heap s2) = S (length (heap s1))) by (rewrite Esh; simpl; rewrite app_length; simpl; lia).
+        assert (Hc2 : cell_at s2 a = Some (mkcell H ct c o ps ks' i' (heap s1))).
+        { rewrite Esh, Ha. unfold cell_at; simpl. rewrite nth_error_app2, Nat.sub_diag by lia. reflexivity. }
+        rewrite Hc2. cbn [k_id mkcell]. destruct (pystr_eqb_spec i' i) as [->|Hne].
+        * split; auto. unfold len_le in *. split; lia.
+        * split; [apply force_inv; auto; rewrite Esh, Ha; simpl; auto|].
+          unfold len_le in *. rewrite force_len. split; lia.
+      + apply construct_late in Eco as [a [Ea _]]. pose proof (alloc_inv H ct _ _ _ _ _ _ _ Hs1 Hbelow Ea) as Hs2.
+        split; auto. apply alloc_shape in Ea as [i' [_ [_ [_ ->]]]]. unfold len_le in *. simpl. rewrite app_length. lia.
+  Qed.
+
+  (* ---------- the code in /repo (forced id only while free): what ONE as_obj call does to a state ----------
+     Relative to the state s0 in which the call started: the invariant holds, the old cells, the variables, the ghost
+     sets and the slots are what they were, EVERY entry of the registry is still there (nobody is evicted), every other
+     entry belongs to a node built by the call, and a node built by the call points at nodes built by the call or at
+     nodes that were registered when the call started. *)
+  Record DP (s0 t : st) : Prop := {
+    dp_inv : Inv0 t;
+    dp_len : length (heap s0) <= length (heap t);
+    dp_old : forall a, a < length (heap s0) -> nth_error (heap t) a = nth_error (heap s0) a;
+    dp_vars : vars t = vars s0;
+    dp_gone : gone t = gone s0;
+    dp_det : det t = det s0;
+    dp_slots : slots t = slots s0;
+    dp_sub : forall e, In e (reg s0) -> In e (reg t);
+    dp_sup : forall e, In e (reg t) -> In e (reg s0) \/ length (heap s0) <= snd e;
+    dp_new : forall y c, length (heap s0) <= y -> cell_at t y = Some c ->
+               forall k, In k (all_kids c) -> k < length (heap s0) -> exists j, In (j, k) (reg s0)
+  }.
+  Definition DQ (s0 t : st) (y : nat) : Prop :=
+    y < length (heap t) /\ (y < length (heap s0) -> exists j, In (j, y) (reg s0)).
+
+  Lemma DP_refl s : Inv0 s -> DP s s.
+  Proof.
+    intro Hs. constructor; auto.
+    intros y c Hy Hc. apply cell_at_lt in Hc. lia.
+  Qed.
+
+  Lemma reg_lt s i a : Inv0 s -> In (i, a) (reg s) -> a < length (heap s).
+  Proof. intros Hs Hin. destruct (I_ok _ Hs _ _ Hin) as [c [Hc _]]. eapply cell_at_lt; eauto. Qed.
+
+  Lemma alloc_DP s0 s1 c o ps ks s2 a : DP s0 s1 ->
+    (forall k, In k (flat_map (fun k => snd (snd k)) ks) -> DQ s0 s1 k) ->
+    alloc H ct s1 c o ps ks = Some (s2, a) -> DP s0 s2 /\ a = length (heap s1).
+  Proof.
+    intros [Hi Hl Ho Hv Hg Hd Hsl Hsub Hsup Hnew] Hk Ea.
+    assert (Hs2 : Inv0 s2) by (eapply alloc_inv; eauto; intros k Hin; apply Hk; auto).
+    apply alloc_shape in Ea as [i [_ [-> [_ ->]]]]. split; [|reflexivity]. constructor; simpl; auto.
+    - rewrite app_length. lia.
+    - intros x Hx. rewrite nth_error_app1 by lia. auto.
+    - intros e [<-|Hin]; simpl; auto.
+    - intros y cy Hy Hc k Hin Hlt. unfold cell_at in Hc; simpl in Hc.
+      destruct (Nat.lt_ge_cases y (length (heap s1))) as [Hy1|Hy1].
+      + rewrite nth_error_app1 in Hc by auto. eapply Hnew; eauto.
+      + rewrite nth_error_app2 in Hc by auto. destruct (y - length (heap s1)) as [|m]; simpl in Hc; [|destruct m; discriminate].
+        injection Hc as <-. unfold all_kids in Hin; simpl in Hin. apply Hk in Hin as [_ Hj]. auto.
+  Qed.
+
+  Lemma force_DP s0 s2 a cl i : Inv0 s0 -> DP s0 s2 -> cell_at s2 a = Some cl -> In (k_id cl, a) (reg s2) ->
+    length (heap s0) <= a -> k_id cl <> i -> lookup i (reg s2) = None -> DP s0 (force_id false s2 a cl i).
+  Proof.
+    intros Hs0 [Hi Hl Ho Hv Hg Hd Hsl Hsub Hsup Hnew] Hc Hin Ha Hne El.
+    assert (Hl1 : lookup i (remove_id (k_id cl) (reg s2)) = None) by (rewrite lookup_remove_other; auto).
+    constructor; simpl; auto.
+    - now apply force_inv_raw.
+    - rewrite set_nth_length. auto.
+    - intros x Hx. rewrite set_nth_other by lia. auto.
+    - now rewrite Hl1.
+    - intros [j x] Hjx. right. apply remove_in. pose proof (Hsub _ Hjx) as H2.
+      assert (Hji : j <> i). { intro E. subst j. apply lookup_none in El. apply El. eapply in_keys; eauto. }
+      split; auto. apply remove_in. split; auto. intro E. subst j.
+      apply (in_lookup _ _ _ (I_fun _ Hi)) in H2. apply (in_lookup _ _ _ (I_fun _ Hi)) in Hin.
+      assert (x = a) by congruence. subst x. pose proof (reg_lt _ _ _ Hs0 Hjx). lia.
+    - intros [j x] [E|Hin']; [injection E as <- <-; right; simpl; auto|]. apply remove_in in Hin' as [Hin' _].
+      apply remove_in in Hin' as [Hin' _]. auto.
+    - intros y cy Hy Hcy k Hk Hlt. unfold cell_at in Hcy; simpl in Hcy.
+      destruct (Nat.eq_dec y a) as [->|Hya].
+      + rewrite set_nth_same in Hcy by (eapply cell_at_lt; eauto). injection Hcy as <-.
+        eapply (Hnew a cl); eauto.
+      + rewrite set_nth_other in Hcy by auto. eapply Hnew; eauto.
+  Qed.
+
+  Lemma DQ_mono s0 t t' y : DQ s0 t y -> len_le t t' -> DQ s0 t' y.
+  Proof. unfold DQ, len_le. intros [? ?] ?. split; auto. lia. Qed.
+
+  Theorem deser_spec s0 : Inv0 s0 -> forall fuel t v, DP s0 t ->
+    match deser H ct late true fuel t v with
+    | DOk t' a => DP s0 t' /\ len_le t t' /\ DQ s0 t' a
+    | DLate t' => DP s0 t' /\ len_le t t'
+    | DFuel => True
+    end.
+  Proof.
+    intro Hs0. induction fuel as [|f IH]; intros s v Hs; simpl; [exact I|]. destruct v as [i c o ps ks].
+    destruct (lookup i (reg s)) as [b|] eqn:El.
+    - split; auto. split; [unfold len_le; lia|]. apply lookup_in in El. split.
+      + eapply reg_lt; eauto. apply Hs.
+      + intro Hb. destruct (dp_sup _ _ Hs _ El) as [Hin|Hge]; [eauto|simpl in Hge; lia].
+    - pose (Q := DQ s0).
+      pose (Q' := fun (t : st) (k : pystr * (kshape * list nat)) => Forall (Q t) (snd (snd k))).
+      assert (Rrefl : forall t, len_le t t) by (intro; unfold len_le; lia).
+      assert (Rtrans : forall a b c, len_le a b -> len_le b c -> len_le a c) by (unfold len_le; intros; lia).
+      assert (Qmono : forall t t' y, Q t y -> len_le t t' -> Q t' y) by (intros; eapply DQ_mono; eauto).
+      assert (Q'mono : forall t t' y, Q' t y -> len_le t t' -> Q' t' y).
+      { intros t t' y Hq G. unfold Q' in *. eapply Forall_impl; [|exact Hq]. intros z Hz. eapply Qmono; eauto. }
+      assert (Hinner : forall t x, DP s0 t -> match deser H ct late true f t x with
+                                              | DOk t' y => DP s0 t' /\ len_le t t' /\ Q t' y
+                                              | DLate t' => DP s0 t' /\ len_le t t'
+                                              | DFuel => True
+                                              end) by (intros t x Ht; exact (IH t x Ht)).
+      assert (Houter : forall t k, DP s0 t ->
+         match (match mapM_d (deser H ct late true f) t (snd (snd k)) with
+                | DOk t' l => DOk t' (fst k, (fst (snd k), l))
+                | DLate t' => DLate t'
+                | DFuel => DFuel
+                end) with
+         | DOk t' y => DP s0 t' /\ len_le t t' /\ Q' t' y
+         | DLate t' => DP s0 t' /\ len_le t t'
+         | DFuel => True
+         end).
+      { intros t k Ht. pose proof (mapM_d_spec _ (DP s0) len_le Q Rrefl Rtrans Qmono Hinner (snd (snd k)) t Ht) as M.
+        destruct (mapM_d (deser H ct late true f) t (snd (snd k))) as [t1 l|t1|]; auto. }
+      pose proof (mapM_d_spec _ (DP s0) len_le Q' Rrefl Rtrans Q'mono Houter ks s Hs) as M.
+      destruct (mapM_d _ s ks) as [s1 ks'|s1|]; auto.
+      destruct M as [Hs1 [G1 Hq]].
+      assert (Hkq : forall k, In k (flat_map (fun k => snd (snd k)) ks') -> DQ s0 s1 k).
+      { intros k Hin. apply in_flat_map in Hin as [e [He Hk]]. rewrite Forall_forall in Hq.
+        specialize (Hq _ He). unfold Q' in Hq. rewrite Forall_forall in Hq. apply Hq. auto. }
+      destruct (construct H ct late s1 c o ps ks') as [s2 a|s2|] eqn:Eco; auto.
+      + apply construct_ok in Eco as [Ea _]. destruct (alloc_DP _ _ _ _ _ _ _ _ Hs1 Hkq Ea) as [Hs2 Ha].
+        pose proof Ea as Esh. apply alloc_shape in Esh as [i' [_ [_ [_ Esh]]]].
+        assert (Hl2 : length (heap s2) = S (length (heap s1))) by (rewrite Esh; simpl; rewrite app_length; simpl; lia).
+        assert (Hc2 : cell_at s2 a = Some (mkcell H ct c o ps ks' i' (heap s1))).
+        { rewrite Esh, Ha. unfold cell_at; simpl. rewrite nth_error_app2, Nat.sub_diag by lia. reflexivity. }
+        assert (Hlen1 : length (heap s0) <= length (heap s1)) by apply Hs1.
+        assert (Hqa : forall t, length (heap t) = length (heap s2) -> DQ s0 t a).
+        { intros t Ht. split; [lia|]. intro. lia. }
+        rewrite Hc2. cbn [k_id mkcell]. destruct (pystr_eqb_spec i' i) as [->|Hne].
+        * split; auto. unfold len_le in *. split; [lia|auto].
+        * rewrite force_id_true. destruct (lookup i (reg s2)) as [b|] eqn:El2.
+          -- split; auto. unfold len_le in *. split; [lia|auto].
+          -- split; [|unfold len_le in *; rewrite force_len; split; [lia|apply Hqa; apply force_len]].
+             apply force_DP; auto; [rewrite Esh, Ha; simpl; auto|lia].
+      + apply construct_late in Eco as [a [Ea _]]. destruct (alloc_DP _ _ _ _ _ _ _ _ Hs1 Hkq Ea) as [Hs2 Ha].
+        split; auto. apply alloc_shape in Ea as [i' [_ [_ [_ ->]]]]. unfold len_le in *. simpl. rewrite app_length. lia.
+  Qed.
+
+  (* deserialization NEVER evicts anybody: every lookup that answered before the call answers the same after it
+     (whether the call returns or is rejected half-way), every existing node is what it was, nothing is detached *)
+  Theorem deser_never_evicts fuel s v s' : Inv0 s ->
+    (deser H ct late true fuel s v = DLate s' \/ exists a, deser H ct late true fuel s v = DOk s' a) ->
+    (forall j b, get_any s j = Some b -> get_any s' j = Some b) /\
+    (forall a, a < length (heap s) -> cell_at s' a = cell_at s a) /\ det s' = det s /\ Inv0 s'.
+  Proof.
+    intros Hs Hr. pose proof (deser_spec s Hs fuel s v (DP_refl s Hs)) as M.
+    assert (Hd : DP s s') by (destruct Hr as [E|[a E]]; rewrite E in M; apply M).
+    split; [|split; [|split]].
+    - intros j b E. unfold get_any in *. apply lookup_in in E. apply (dp_sub _ _ Hd) in E.
+      apply in_lookup; auto. apply (I_fun _ (dp_inv _ _ Hd)).
+    - intros a Ha. unfold cell_at. now apply (dp_old _ _ Hd).
+    - apply Hd.
+    - apply Hd.
+  Qed.
+
+  Lemma DP_hext s s' : DP s s' -> exists ext, heap s' = heap s ++ ext.
+  Proof. intros Hd. eexists. apply prefix_ext; [apply Hd|]. intros a Ha. now apply (dp_old _ _ Hd). Qed.
+
+  Lemma DP_failrel s s' : DP s s' -> failrel s s'.
+  Proof.
+    intro Hd. split; [now apply DP_hext|]. split; [apply Hd|]. split; [apply Hd|]. split; [apply Hd|apply Hd].
+  Qed.
+
+  (* ---------- no fuelled loop of as_dict / as_obj runs out ---------- *)
+  Lemma sdepth_kid (ks : list (pystr * (kshape * list sval))) k x : In k ks -> In x (snd (snd k)) ->
+    sdepth x <= fold_right (fun (k : pystr * (kshape * list sval)) m =>
+                              fold_right (fun x m' => Nat.max (sdepth x) m') m (snd (snd k))) 0 ks.
+  Proof.
+    intros Hk Hx. induction ks as [|k0 ks IHk]; [destruct Hk|]. simpl. destruct Hk as [->|Hk].
+    - clear IHk. induction (snd (snd k)) as [|y l IHl]; [destruct Hx|]. simpl. destruct Hx as [->|Hx]; [lia|].
+      specialize (IHl Hx). lia.
+    - specialize (IHk Hk). clear -IHk. induction (snd (snd k0)) as [|y l IHl]; simpl; lia.
+  Qed.
+End SerProofs.
+
 (* ================= every step preserves the invariant ================= *)
 Section StepProofs.
   Variable H : pystr -> pystr.
@@ -794,7 +1152,7 @@ Section StepProofs.
   Lemma step_raw_inv s o : Inv0 s -> Inv1 (fst (step_raw H ct late true s o)).
   Proof.
     intro Hs. pose proof (inv0_inv1 s Hs) as Hs1.
-    destruct o as [dst c og ps ks|dst src|dst src ch|dst src ch|x|x|v|x k]; simpl.
+    destruct o as [dst c og ps ks|dst src|dst src ch|dst src ch|x|x|v|x k|src slot|slot dst]; simpl.
     - destruct (negb _); [exact Hs1|]. destruct (new_args ct s c ps ks) as [| |ks'] eqn:En; try exact Hs1.
       destruct (construct H ct late s c og ps ks') as [s' a|s'|] eqn:Eco; [| |exact Hs1]; simpl.
       + apply construct_ok in Eco as [Ea _]. apply inv0_inv1. apply set_var_inv.
@@ -823,6 +1181,13 @@ Section StepProofs.
       pose proof (detach_self_inv s a Hs). destruct (detach_self true s a); simpl in *. now apply inv0_inv1.
     - apply inv0_inv1. apply set_var_inv; auto. discriminate.
     - destruct (resolve s x); exact Hs1.
+    - destruct (resolve s src) as [a|]; [|exact Hs1]. destruct (ser_st s a); [|exact Hs1]. simpl.
+      apply inv0_inv1. now apply inv0_set_slot.
+    - destruct (negb _); [exact Hs1|]. destruct (slot_get slot (slots s)) as [v|]; [|exact Hs1].
+      pose proof (deser_inv H ct late true (S (sdepth v)) s v Hs) as M. unfold asobj.
+      destruct (deser H ct late true (S (sdepth v)) s v) as [s' a|s'|]; [| |exact Hs1]; simpl.
+      + destruct M as [Hs' [_ Ha]]. apply inv0_inv1. apply set_var_inv; auto. intros a0 [= <-]. auto.
+      + apply inv0_inv1. apply M.
   Qed.
 
   Lemma step_inv0 s o : Inv0 s -> RInv (fst (step H ct late true s o)).
@@ -909,20 +1274,6 @@ Qed.
 Lemma bind_raised dst r s' e : bind dst r = (s', Raised e) -> r = (s', Raised e).
 Proof. destruct r as [s [| a | b | e' | | |]]; simpl; auto; discriminate. Qed.
 
-(* what a raising operation leaves behind (before the collection that ends the step): the heap has only grown, variables
-   and the ghost `gone` are as they were, every old registration is still there, and whatever else is registered is a
-   node built by the failed call *)
-Definition failrel (s s2 : st) : Prop :=
-  (exists ext, heap s2 = heap s ++ ext) /\ vars s2 = vars s /\ gone s2 = gone s /\
-  (forall e, In e (reg s) -> In e (reg s2)) /\
-  (forall e, In e (reg s2) -> In e (reg s) \/ length (heap s) <= snd e).
-Lemma grow_failrel s s2 : grow s s2 -> failrel s s2.
-Proof.
-  intros G. destruct G as [Hh [[nr [Hr Hn]] [Hv [_ Hg]]]]. repeat split; auto.
-  - intros e Hin. rewrite Hr. apply in_or_app. auto.
-  - intros e Hin. rewrite Hr in Hin. apply in_app_or in Hin as [Hin|Hin]; auto.
-Qed.
-
 Section Fail.
   Variable H : pystr -> pystr.
   Variable ct : ctable.
@@ -955,7 +1306,7 @@ Section Fail.
 
   Lemma step_raw_raised s o s2 e : Inv0 s -> step_raw H ct late true s o = (s2, Raised e) -> failrel s s2.
   Proof.
-    intro Hs. destruct o as [dst c og ps ks|dst src|dst src ch|dst src ch|x|x|v|x k]; simpl.
+    intro Hs. destruct o as [dst c og ps ks|dst src|dst src ch|dst src ch|x|x|v|x k|src slot|slot dst]; simpl.
     - destruct (negb _); [discriminate|]. destruct (new_args ct s c ps ks) as [| |ks']; try discriminate.
       destruct (construct H ct late s c og ps ks') as [s' a|s'|] eqn:Eco; try (simpl; discriminate).
       intros [= <- _]. apply construct_late in Eco as [a [Ea _]]. apply grow_failrel. eapply alloc_grow; eauto.
@@ -974,6 +1325,11 @@ Section Fail.
     - destruct (resolve s x) as [a|]; [|discriminate]. destruct (detach_self true s a). discriminate.
     - discriminate.
     - destruct (resolve s x); discriminate.
+    - destruct (resolve s src) as [a|]; [|discriminate]. destruct (ser_st s a); discriminate.
+    - destruct (negb _); [discriminate|]. destruct (slot_get slot (slots s)) as [v|]; [|discriminate].
+      pose proof (deser_spec H ct late s Hs (S (sdepth v)) s v (DP_refl s Hs)) as M. unfold asobj.
+      destruct (deser H ct late true (S (sdepth v)) s v) as [s' a'|s'|]; try (simpl; discriminate).
+      intros [= <- _]. apply DP_failrel. apply M.
   Qed.
 End Fail.
 
@@ -1026,7 +1382,7 @@ Definition demo (fx : bool) : st := run demo_H demo_ct no_late fx (init_st 2) de
 
 (* unrepaired: after x.detach_self(); y = twin; x.detach_self() the live, never detached y (address 1) is not found *)
 Lemma refuted_double_detach :
-  let s := demo false in
+  let s := run demo_H demo_ct no_late false (init_st 2) demo_ops in
   exists c, cell_at s 1 = Some c /\ reachable s 1 = true /\ ~ In 1 (det s) /\ ~ In 1 (gone s) /\
             get_any s (k_id c) = None.
 Proof.
@@ -1034,7 +1390,7 @@ Proof.
   split; [vm_compute; intuition lia|]. split; [vm_compute; intuition lia|]. vm_compute. reflexivity.
 Qed.
 Lemma repaired_double_detach :
-  let s := demo true in exists c, cell_at s 1 = Some c /\ get_any s (k_id c) = Some 1.
+  let s := run demo_H demo_ct no_late true (init_st 2) demo_ops in exists c, cell_at s 1 = Some c /\ get_any s (k_id c) = Some 1.
 Proof. eexists. split; vm_compute; reflexivity. Qed.
 
 (* ================= C14: duplicate ================= *)
@@ -1325,6 +1681,53 @@ Section FrameProofs.
     destruct (match lookup (k_id c) (reg s) with Some b => _ | None => None end); intros [= <- _]; exact H2.
   Qed.
 
+  (* as_obj: the forced-id branch writes into the node just built, never below the heap the call started on *)
+  Definition hpre (n : nat) (s s' : st) : Prop :=
+    length (heap s) <= length (heap s') /\ forall a, a < n -> nth_error (heap s') a = nth_error (heap s) a.
+  Lemma hpre_refl n s : hpre n s s.
+  Proof. split; auto. Qed.
+  Lemma hpre_trans n a b c : hpre n a b -> hpre n b c -> hpre n a c.
+  Proof. intros [L1 H1] [L2 H2]. split; [lia|]. intros x Hx. rewrite H2, H1; auto. Qed.
+  Lemma hext_hpre n s s' : hext s s' -> n <= length (heap s) -> hpre n s s'.
+  Proof.
+    intros [e He] Hn. split; [rewrite He, app_length; lia|]. intros a Ha. rewrite He, nth_error_app1; auto. lia.
+  Qed.
+  Lemma mapM_d_hpre {A B} n (f : st -> A -> dres B) :
+    (forall s x, n <= length (heap s) -> hpre n s (dstate (f s x) s)) ->
+    forall l s, n <= length (heap s) -> hpre n s (dstate (mapM_d f s l) s).
+  Proof.
+    intros Hf. induction l as [|x l IH]; simpl; intros s Hn; [apply hpre_refl|].
+    specialize (Hf s x Hn). destruct (f s x) as [s1 y|s1|]; simpl in *; [|exact Hf|apply hpre_refl].
+    assert (Hn1 : n <= length (heap s1)) by (destruct Hf; lia).
+    specialize (IH s1 Hn1). destruct (mapM_d f s1 l) as [s2 ys|s2|]; simpl in *;
+      [eapply hpre_trans; eauto|eapply hpre_trans; eauto|apply hpre_refl].
+  Qed.
+  Lemma deser_hpre n : forall fuel s v, n <= length (heap s) -> hpre n s (dstate (deser H ct late fx fuel s v) s).
+  Proof.
+    induction fuel as [|f IH]; simpl; intros s v Hn; [apply hpre_refl|]. destruct v as [i c o ps ks].
+    destruct (lookup i (reg s)); [apply hpre_refl|].
+    assert (H1 : hpre n s (dstate (mapM_d (fun s k => match mapM_d (deser H ct late fx f) s (snd (snd k)) with
+                                 | DOk s' l => DOk s' (fst k, (fst (snd k), l))
+                                 | DLate s' => DLate s'
+                                 | DFuel => DFuel
+                                 end) s ks) s)).
+    { apply mapM_d_hpre; auto. intros t k Ht. pose proof (mapM_d_hpre n (deser H ct late fx f) IH (snd (snd k)) t Ht) as M.
+      destruct (mapM_d (deser H ct late fx f) t (snd (snd k))); exact M. }
+    destruct (mapM_d _ s ks) as [s1 ks'|s1|]; simpl in *; [|exact H1|apply hpre_refl].
+    assert (Hn1 : n <= length (heap s1)) by (destruct H1; lia).
+    pose proof (construct_hext s1 c o ps ks') as H2.
+    destruct (construct H ct late s1 c o ps ks') as [s2 a|s2|] eqn:Eco; simpl in *.
+    - assert (H3 : hpre n s s2) by (eapply hpre_trans; [exact H1|apply hext_hpre; auto]).
+      apply construct_ok in Eco as [Ea _]. apply alloc_shape in Ea as [i' [_ [Ha [_ Esh]]]].
+      destruct (cell_at s2 a) as [cl|]; simpl; [|apply hpre_refl].
+      destruct (pystr_eqb (k_id cl) i); simpl; auto.
+      destruct (force_id_cases fx s2 a cl i) as [-> | ->]; auto.
+      eapply hpre_trans; [exact H3|]. split; simpl; [rewrite set_nth_length; lia|].
+      intros x Hx. apply set_nth_other. rewrite Ha. lia.
+    - eapply hpre_trans; [exact H1|apply hext_hpre; auto].
+    - apply hpre_refl.
+  Qed.
+
   Lemma bind_hext dst r s : hext s (fst r) -> hext s (fst (bind dst r)).
   Proof. destruct r as [s1 [| a | b | e | | |]]; simpl; auto. Qed.
 
@@ -1333,7 +1736,7 @@ Section FrameProofs.
     unfold step. destruct (step_raw H ct late fx s o) as [s' r] eqn:E. simpl.
     assert (Hx : hext s s'); [|destruct Hx as [e He]; exists e; exact He].
     replace s' with (fst (step_raw H ct late fx s o)) by now rewrite E. clear E.
-    destruct o as [dst c og ps ks|dst src|dst src ch|dst src ch|x|x|v|x k]; simpl.
+    destruct o as [dst c og ps ks|dst src|dst src ch|dst src ch|x|x|v|x k|src slot|slot dst]; simpl.
     - destruct (negb _); [apply hext_refl|]. destruct (new_args ct s c ps ks); try apply hext_refl.
       pose proof (construct_hext s c og ps x) as M.
       destruct (construct H ct late s c og ps x) as [s1 a|s1|]; simpl in *; auto.
@@ -1354,6 +1757,11 @@ Section FrameProofs.
       destruct (detach_self_frame fx s a) as [Hh _]. destruct (detach_self fx s a). apply hext_eq. exact Hh.
     - apply hext_eq. reflexivity.
     - destruct (resolve s x); apply hext_refl.
+    - destruct (resolve s src) as [a|]; [|apply hext_refl]. destruct (ser_st s a); [apply hext_eq; reflexivity|apply hext_refl].
+    - destruct (negb _); [apply hext_refl|]. destruct (slot_get slot (slots s)) as [v|]; [|apply hext_refl].
+      pose proof (deser_hpre (length (heap s)) (S (sdepth v)) s v (le_n _)) as M. unfold asobj.
+      destruct (deser H ct late fx (S (sdepth v)) s v) as [s1 a'|s1|]; simpl in *; [| |apply hext_refl];
+        destruct M as [Hl Hn]; exists (skipn (length (heap s)) (heap s1)); apply prefix_ext; auto.
   Qed.
 
   Theorem heap_frame s o a : a < length (heap s) ->
@@ -1383,11 +1791,54 @@ Section Fuel.
   Lemma bind_snd dst r : snd r <> FuelOut -> snd (bind dst r) <> FuelOut.
   Proof. destruct r as [s1 [| a | b | e | | |]]; simpl; auto. Qed.
 
+  Lemma deser_no_fuel fx : forall fuel s v, sdepth v < fuel -> deser H ct late fx fuel s v <> DFuel.
+  Proof.
+    induction fuel as [|f IH]; intros s v Hd; [lia|]. destruct v as [i c o ps ks]. simpl.
+    destruct (lookup i (reg s)); [discriminate|].
+    pose (P := fun _ : st => True).
+    match goal with |- context [mapM_d ?g s ks] => set (G := g) end.
+    assert (Hin : forall t k, In k ks -> P t ->
+               G t k <> DFuel /\ forall t', (G t k = DLate t' \/ exists y, G t k = DOk t' y) -> P t').
+    { intros t k Hk _. split; [|intros; exact I]. unfold G.
+      destruct (mapM_d_no_fuel (deser H ct late fx f) P (snd (snd k))) with (s := t) as [Hn _]; [|exact I|].
+      - intros t1 x Hx _. split; [|intros; exact I]. apply IH. pose proof (sdepth_kid ks k x Hk Hx). simpl in Hd. lia.
+      - destruct (mapM_d (deser H ct late fx f) t (snd (snd k))); [discriminate|discriminate|congruence]. }
+    destruct (mapM_d_no_fuel G P ks Hin s I) as [Hn _].
+    destruct (mapM_d G s ks) as [s1 ks'|s1|]; [|discriminate|congruence].
+    pose proof (construct_no_fuel H ct late s1 c o ps ks') as Hc.
+    destruct (construct H ct late s1 c o ps ks') as [s2 a|s2|] eqn:Eco; [|discriminate|congruence].
+    apply construct_ok in Eco as [Ea _]. apply alloc_shape in Ea as [i' [_ [-> [_ ->]]]].
+    unfold cell_at; simpl. rewrite nth_error_app2, Nat.sub_diag by lia. simpl. destruct (pystr_eqb _ _); discriminate.
+  Qed.
+  Lemma asobj_no_fuel fx s v : asobj H ct late fx s v <> DFuel.
+  Proof. unfold asobj. apply deser_no_fuel. lia. Qed.
+
+  Lemma mapO_some {A B} (f : A -> option B) l : (forall x, In x l -> f x <> None) -> mapO f l <> None.
+  Proof.
+    induction l as [|x l IH]; simpl; intros Hf; [discriminate|].
+    destruct (f x) eqn:E; [|exfalso; eapply Hf; eauto]. destruct (mapO f l) eqn:E2; [discriminate|].
+    exfalso. apply IH; auto.
+  Qed.
+  (* as_dict never fails on a held tree: children have smaller addresses *)
+  Lemma ser_total hp : (forall a c, nth_error hp a = Some c -> forall k, In k (all_kids c) -> k < a) ->
+    forall fuel a, a < fuel -> a < length hp -> ser hp fuel a <> None.
+  Proof.
+    intros Hwf. induction fuel as [|f IH]; intros a Hf Ha; [lia|]. simpl.
+    destruct (nth_error hp a) as [c|] eqn:E; [|apply nth_error_None in E; lia].
+    match goal with |- context [mapO ?g (k_kids c)] => assert (Hm : mapO g (k_kids c) <> None) end.
+    { apply mapO_some. intros k Hk.
+      assert (Hi : mapO (ser hp f) (snd (snd k)) <> None).
+      { apply mapO_some. intros x Hx.
+        assert (x < a) by (eapply Hwf; eauto; unfold all_kids; apply in_flat_map; eauto). apply IH; lia. }
+      destruct (mapO (ser hp f) (snd (snd k))); [discriminate|congruence]. }
+    destruct (mapO _ (k_kids c)); [discriminate|congruence].
+  Qed.
+
   Theorem step_no_fuel_out s o : RInv s -> snd (step H ct late true s o) <> FuelOut.
   Proof.
     intros [Hs _]. unfold step. destruct (step_raw H ct late true s o) as [s' r] eqn:E. simpl.
     replace r with (snd (step_raw H ct late true s o)) by now rewrite E. clear E.
-    destruct o as [dst c og ps ks|dst src|dst src ch|dst src ch|x|x|v|x k]; simpl.
+    destruct o as [dst c og ps ks|dst src|dst src ch|dst src ch|x|x|v|x k|src slot|slot dst]; simpl.
     - destruct (negb _); [discriminate|]. destruct (new_args ct s c ps ks); try discriminate.
       pose proof (construct_no_fuel H ct late s c og ps x) as M.
       destruct (construct H ct late s c og ps x); try discriminate. congruence.
@@ -1408,6 +1859,12 @@ Section Fuel.
     - destruct (resolve s x); [|discriminate]. destruct (detach_self true s n). discriminate.
     - discriminate.
     - destruct (resolve s x); discriminate.
+    - destruct (resolve s src) as [a|] eqn:Er; [|discriminate].
+      pose proof (ser_total (heap s) (I_heap _ Hs) (S a) a (Nat.lt_succ_diag_r a) (resolve_lt _ _ _ Er)) as M.
+      unfold ser_st. destruct (ser (heap s) (S a) a); [discriminate|congruence].
+    - destruct (negb _); [discriminate|]. destruct (slot_get slot (slots s)) as [v|]; [|discriminate].
+      pose proof (asobj_no_fuel true s v) as M.
+      destruct (asobj H ct late true s v); [simpl; discriminate|discriminate|congruence].
   Qed.
 End Fuel.
 
